@@ -112,6 +112,9 @@ pub struct FitSummary<T: Sc, M: SeparableNonlinearModel<ScalarType = T>> {
     pub stats: Option<StatsSummary<T>>,
     /// the FitStatistics object itself, for band queries
     pub stats_obj: Option<FitStatistics<M>>,
+    /// model-seam events made by the library call itself (fit / fit_with_statistics), i.e.
+    /// before the harness started to query the result
+    pub lib_events: u64,
 }
 
 pub fn term_name(t: &TerminationReason) -> String {
@@ -165,6 +168,7 @@ fn summarize_s<T: Sc, M: Mdl<T>>(
         problem: AnyProb::RS(Box::new(r)),
         stats: ss,
         stats_obj: stats,
+        lib_events: 0,
     }
 }
 
@@ -185,7 +189,13 @@ fn summarize_m<T: Sc, M: Mdl<T>>(ok: bool, r: FitResult<M, true>) -> FitSummary<
         problem: AnyProb::RM(Box::new(r)),
         stats: None,
         stats_obj: None,
+        lib_events: 0,
     }
+}
+
+fn with_events<T: Sc, M: SeparableNonlinearModel<ScalarType = T>>(mut f: FitSummary<T, M>, n: u64) -> FitSummary<T, M> {
+    f.lib_events = n;
+    f
 }
 
 #[derive(Debug, Clone, PartialEq)]
@@ -386,22 +396,24 @@ impl<T: Sc, M: Mdl<T>> AnyProb<T, M> {
 
     pub fn fit(self, cfg: &OptCfg) -> FitSummary<T, M> {
         let lm = make_lm::<T>(cfg);
+        let e0 = crate::ctl::EVENTS.load(std::sync::atomic::Ordering::SeqCst);
+        let ev = move || crate::ctl::EVENTS.load(std::sync::atomic::Ordering::SeqCst) - e0;
         match self.unwrap_result() {
-            AnyProb::SS(p) => match LevMarSolver::with_solver(lm).fit(p) {
-                Ok(r) => summarize_s(true, r, None),
-                Err(r) => summarize_s(false, r, None),
+            AnyProb::SS(p) => match { let res = LevMarSolver::with_solver(lm).fit(p); let n = ev(); (res, n) } {
+                (Ok(r), n) => with_events(summarize_s(true, r, None), n),
+                (Err(r), n) => with_events(summarize_s(false, r, None), n),
             },
-            AnyProb::SP(p) => match LevMarSolver::with_solver(lm).fit(p) {
-                Ok(r) => summarize_s(true, r, None),
-                Err(r) => summarize_s(false, r, None),
+            AnyProb::SP(p) => match { let res = LevMarSolver::with_solver(lm).fit(p); let n = ev(); (res, n) } {
+                (Ok(r), n) => with_events(summarize_s(true, r, None), n),
+                (Err(r), n) => with_events(summarize_s(false, r, None), n),
             },
-            AnyProb::MS(p) => match LevMarSolver::with_solver(lm).fit(p) {
-                Ok(r) => summarize_m(true, r),
-                Err(r) => summarize_m(false, r),
+            AnyProb::MS(p) => match { let res = LevMarSolver::with_solver(lm).fit(p); let n = ev(); (res, n) } {
+                (Ok(r), n) => with_events(summarize_m(true, r), n),
+                (Err(r), n) => with_events(summarize_m(false, r), n),
             },
-            AnyProb::MP(p) => match LevMarSolver::with_solver(lm).fit(p) {
-                Ok(r) => summarize_m(true, r),
-                Err(r) => summarize_m(false, r),
+            AnyProb::MP(p) => match { let res = LevMarSolver::with_solver(lm).fit(p); let n = ev(); (res, n) } {
+                (Ok(r), n) => with_events(summarize_m(true, r), n),
+                (Err(r), n) => with_events(summarize_m(false, r), n),
             },
             AnyProb::RS(_) | AnyProb::RM(_) => unreachable!(),
         }
@@ -410,14 +422,16 @@ impl<T: Sc, M: Mdl<T>> AnyProb<T, M> {
     /// `fit_with_statistics`; for multiple right-hand sides (no such API) falls back to `fit`.
     pub fn fit_with_statistics(self, cfg: &OptCfg) -> FitSummary<T, M> {
         let lm = make_lm::<T>(cfg);
+        let e0 = crate::ctl::EVENTS.load(std::sync::atomic::Ordering::SeqCst);
+        let ev = move || crate::ctl::EVENTS.load(std::sync::atomic::Ordering::SeqCst) - e0;
         match self.unwrap_result() {
-            AnyProb::SS(p) => match LevMarSolver::with_solver(lm).fit_with_statistics(p) {
-                Ok((r, s)) => summarize_s(true, r, Some(s)),
-                Err(r) => summarize_s(false, r, None),
+            AnyProb::SS(p) => match { let res = LevMarSolver::with_solver(lm).fit_with_statistics(p); let n = ev(); (res, n) } {
+                (Ok((r, s)), n) => with_events(summarize_s(true, r, Some(s)), n),
+                (Err(r), n) => with_events(summarize_s(false, r, None), n),
             },
-            AnyProb::SP(p) => match LevMarSolver::with_solver(lm).fit_with_statistics(p) {
-                Ok((r, s)) => summarize_s(true, r, Some(s)),
-                Err(r) => summarize_s(false, r, None),
+            AnyProb::SP(p) => match { let res = LevMarSolver::with_solver(lm).fit_with_statistics(p); let n = ev(); (res, n) } {
+                (Ok((r, s)), n) => with_events(summarize_s(true, r, Some(s)), n),
+                (Err(r), n) => with_events(summarize_s(false, r, None), n),
             },
             other => other.fit(cfg),
         }
